@@ -41,7 +41,7 @@ pub open spec fn harmless(s: Seq<AsmLine>) -> bool { forall|k: int| 0 <= k < s.l
 // A-dummy: DUMMY is the zero-page scratch symbol declared by compile() under feature atari2600
 pub open spec fn dummy_ok(g: &GeneratorState) -> bool {
     let v = g.compiler_state.var("DUMMY"@);
-    v.var_type == VariableType::Char && v.memory == VariableMemory::Zeropage && v.size < 0x100
+    g.compiler_state.declared("DUMMY"@) && v.var_type == VariableType::Char && v.memory == VariableMemory::Zeropage && v.size < 0x100
 }
 pub proof fn lemma_total_push(s: Seq<AsmLine>, l: AsmLine)
     ensures total_cycles(s.push(l)) == total_cycles(s) + (if l is Instruction { real_cycles(inst(l)) } else { 1000 })
@@ -53,7 +53,7 @@ def build(repo):
     u = Unit(NAME, TOOL, PROPS,
              ["src/generate/generate_statements.rs: GeneratorState::generate_csleep_statement", "src/generate/generate_statements.rs: GeneratorState::generate_load_store_statement",
               "src/generate/generate_statements.rs: GeneratorState::generate_strobe_statement", "src/generate/generate_statements.rs: GeneratorState::generate_asm_statement"],
-             assumptions=["A-dummy: DUMMY exists and is a zero-page char (declared by compile() only under feature atari2600; without it get_variable(\"DUMMY\") panics: csleep(3|5|9|10) is then outside the contract)",
+             assumptions=["A-dummy: DUMMY exists and is a zero-page char (declared by compile() only under feature atari2600; without it csleep(3|5|9|10) is a located error since 386d608)",
                           "A-isa cycle table; STA/DEC with a 2-byte encoding are the zero-page forms (by C04's O-C04-nb)",
                           "callee contracts (asm, sasm_protected, inline) are those proved in U-asm; R5/R6 shim environment of U-asm",
                           "'exactly once, in source order' through control flow and the optimiser's treatment of protected lines are other units (U-opt) / not decided"])
@@ -124,6 +124,8 @@ def build(repo):
                 (if expr is X { if load { AsmMnemonic::TXA } else { AsmMnemonic::TAX } } else if expr is Y { if load { AsmMnemonic::TYA } else { AsmMnemonic::TAY } }
                  else if load { AsmMnemonic::LDA } else { AsmMnemonic::STA }), //@ C18:loadstore-mnemonic
             (res is Ok && load) ==> final(self).flags == FlagsState::Unknown, //@ C18,C01:load-flags
+            // TAX / TAY set N and Z from the accumulator: whatever the generator believed about them is gone
+            (res is Ok && (expr is X || expr is Y)) ==> final(self).flags == FlagsState::Unknown, //@ C01,C18:register-transfer-forgets-flags
             res is Err ==> final(self).out.code@ == old(self).out.code@,
 """, expect_sig="fn generate_load_store_statement( &mut self, expr: &ExprType, pos: usize, load: bool, ) -> Result<(), Error>")
     ls.body_start("        let ghost c0 = self.out.code@;\n        proof { reveal_strlit(\"\"); assert(added(c0, c0) =~= Seq::<AsmLine>::empty()); }")
